@@ -140,7 +140,8 @@ def conn_name(c):
 
 
 class C45World(object):
-    """params: hosts, orphaned_threshold, reconnect_attempts, keyspace, request_timeout, extra_host"""
+    """params: hosts, protocol_version, orphaned_threshold, reconnect_attempts, request_timeout, future_order,
+    legacy_pool=(core, max, max_requests_per_connection)"""
 
     def __init__(self, params, connect=True, manual=True):
         self.p = p = dict(params)
@@ -173,7 +174,7 @@ class C45World(object):
                 self.cluster.set_max_connections_per_host(HostDistance.LOCAL, mx)
             self.session = None
             self.futures = []
-            self.after = []           # outcomes of requests issued after the shutdown
+            self.after = []           # futures of requests issued after the shutdown
             self.n_exec = 0
             self.exec_errors = []
             if connect:
@@ -205,12 +206,13 @@ class C45World(object):
 
     def execute(self):
         self.n_exec += 1
+        late = self.trk.kind is not None       # issued after a shutdown: must be refused (judge)
         try:
             f = self.session.execute_async(SimpleStatement('SELECT q%d' % self.n_exec))
         except Exception as e:
             self.exec_errors.append(e)
             return None
-        self.futures.append(f)
+        (self.after if late else self.futures).append(f)
         return f
 
     def respond(self, i):
@@ -398,7 +400,19 @@ class C45World(object):
                            '%s.shutdown() raised %r' % (kind, trk.shutdown_exc), data)
         self.drain()
         self._judge_connections(part, data, kind)
-        # new requests are refused
+        # new requests are refused: the ones the history issued behind the shutdown ...
+        for f in self.after:
+            if not f._event.is_set():
+                part.violation('C45/%s/new-request-left-pending' % kind,
+                               'execute_async() after %s.shutdown() returned a future that is not completed after every answer '
+                               'was delivered and every task ran' % kind, data)
+            elif f._final_exception is None:
+                part.violation('C45/%s/new-request-accepted' % kind,
+                               'execute_async() after %s.shutdown() returned was sent and completed with a result; open connections: %s' % (
+                                   kind, ', '.join(conn_name(c) for c in self.open_conns())), data)
+            else:
+                part.outcome(('new-request-in-history', kind, 'error', type(f._final_exception).__name__))
+        # ... and one issued now
         if self.session is not None:
             res, detail = self.probe_request()
             part.outcome(('new-request', kind, res, detail if res != 'pending' else ''))
